@@ -12,7 +12,7 @@ meta = {"id": sid, "property": prop, "needs_to_manifest": needs,
         "origin": "independent sub-agent given only the property text and a scratch worktree",
         "confirmed": "tools/confirm_seed.sh: demo exits 0 without the change and non-zero with it in a scratch worktree; "
                      "full test suite (7726 baseline-stable tests) shows no regression with the change "
-                     "(when several confirmations ran in parallel, 5-6 load-sensitive tests - blackbox.test_serve TCP tests, po_merge - "
+                     "(5-6 tests - blackbox.test_serve TCP tests, po_merge - fail in every full-suite run made in a scratch worktree, also when it runs alone, and "
                      "were reported by every run whatever the change; they were re-run alone with the change by tools/recheck_seed.sh and passed/skipped)",
         "check_run": "tools/try_seed.sh %s seeded/%s/patch.diff  (git apply to /repo, ./check %s --no-mutants, git checkout -- .)" % (prop, sid, prop),
         "detected": detected, "detected_by": by}
